@@ -11,13 +11,17 @@
    [chain_node_bilinear]: finite sums of products  Σ_k val a (α j k) * val b (β j k)  (MatMul, Dot);
      instance [chain_node_matmul2] for the 2-D matrix product with closed-form Jacobian entries;
    [chain_hyp_of_nodes]: [chain_hyp] for a whole graph from a per-node case analysis ([node_ok]);
-   Module [TotalDeriv2Example]: the diamond  m = 2 x; y = m + m  (gradient 4) and  y = x * x  (2 x). *)
+   Module [TotalDeriv2Example] (all hypotheses of bp_total_derivative discharged on heaps built by the
+     model's own h_* functions, x = [x0; x1] arbitrary reals):  the diamond  m = 2 x; y = m + m
+     ([diamond_gradient]: 4),  y = x * x  ([square_gradient]: 2 x),  y = c / x  with c untracked
+     ([quot_gradient]: - c / x²),  y = x · xᵀ  through Transpose and MatMul ([gram_gradient]: 2 x). *)
 From Coq Require Import List Arith ZArith Bool Lia Reals Lra.
 From Coquelicot Require Import Coquelicot.
 From Qeep Require Import Model.Scalar Model.Nd Model.Fill Model.Data Model.Valid Model.Api Model.Grad Model.Backprop.
 From Qeep Require Import Proofs.NdP Proofs.ElemP Proofs.ArithP Proofs.BackpropP.
 From Qeep Require Import Spec.RScalar Spec.ScalarDeriv Spec.VjpSpec.
 From Qeep Require Import Proofs.VjpGatherP Proofs.VjpElemP Proofs.TotalDerivP.
+From Qeep Require Proofs.VjpLinalgP.   (* not imported: it has its own (convertible) sumN *)
 Import ListNotations.
 Local Open Scope R_scope.
 
@@ -864,5 +868,421 @@ Proof.
   - intros dl. apply (square_total_derivative h' lg gx dl E Egx).
 Qed.
 
+(* ---------------------------------------------------------------------------------- *)
+(* 6c. y = c.Div(x)  with c an UNTRACKED leaf: the Div node has one back edge to an untracked
+       target (frozen operand, no Jacobian block needed) and one to a tracked one *)
+Section Quot.
+Variables c0 c1 : R.
+Hypotheses (Hx0 : x0 <> 0) (Hx1 : x1 <> 0).
+
+Definition cv : tensor R := vec2 c0 c1.
+Definition qv : tensor R := vec2 (c0 / x0) (c1 / x1).
+
+Definition hQ : @heap R :=
+  [mkNode xv true false None [] None;
+   mkNode cv false false None [] None;
+   mkNode cv false false None [] None;
+   mkNode xv true false None [(0%nat, RBroadcast 3 0)] None;
+   mkNode qv true false None [(2%nat, RDivA 4 3); (3%nat, RDivB 4 2 3)] None].
+
+Example hQ_built :
+  let '(h0, x) := leaf [] xv true None in
+  let '(h1, c) := leaf h0 cv false None in
+  h_arith h1 BiDiv c x None = (hQ, Ok 4%nat).
+Proof. vm_compute. reflexivity. Qed.
+
+Example hQ_order : topoOrder hQ 4 = [4; 3; 0]%nat.
+Proof. reflexivity. Qed.
+
+Example hQ_run : exists h' lg, bp_topo rd ids hQ 4 = (h', lg, Ok tt).
+Proof. eexists. eexists. vm_compute. reflexivity. Qed.
+
+Lemma hQ_rules_own : rules_own hQ.
+Proof.
+  intros c n e Hn He. destruct c as [|[|[|[|[|c]]]]]; cbn in Hn.
+  - inversion Hn; subst n. destruct He.
+  - inversion Hn; subst n. destruct He.
+  - inversion Hn; subst n. destruct He.
+  - inversion Hn; subst n. destruct He as [<-|[]]. reflexivity.
+  - inversion Hn; subst n. destruct He as [<-|[<-|[]]]; reflexivity.
+  - destruct c; discriminate.
+Qed.
+
+Lemma hQ_wf_heap : wf_heap hQ.
+Proof.
+  intros c n e Hn He. destruct c as [|[|[|[|[|c]]]]]; cbn in Hn.
+  - inversion Hn; subst n. destruct He.
+  - inversion Hn; subst n. destruct He.
+  - inversion Hn; subst n. destruct He.
+  - inversion Hn; subst n. destruct He as [<-|[]]. cbn. lia.
+  - inversion Hn; subst n. destruct He as [<-|[<-|[]]]; cbn; lia.
+  - destruct c; discriminate.
+Qed.
+
+Definition dQ (c : nat) (e : nat * @rule R) (j : list nat) : R :=
+  if (c =? 4)%nat then (if (fst e =? 2)%nat then / elt xv j else - elt cv j / elt xv j ^ 2) else 1.
+Definition DQ (c : nat) (e : nat * @rule R) (i j : list nat) : R :=
+  if idx_eqb i j then dQ c e j else 0.
+
+Lemma DQ_vjp c e (gc : assignment) i : validIdx [2%nat] i ->
+  sumIdx [2%nat] (fun j => gc j * DQ c e i j) = gc i * dQ c e i.
+Proof. intros Hi. unfold DQ. apply (sumIdx_diag_r [2%nat] gc (dQ c e) i Hi). Qed.
+
+Lemma DQ_jvp c e (v : assignment) j : validIdx [2%nat] j ->
+  sumIdx [2%nat] (fun i => DQ c e i j * v i) = dQ c e j * v j.
+Proof. intros Hj. unfold DQ. apply (sumIdx_diag_l [2%nat] (dQ c e) v j Hj). Qed.
+
+Lemma hQ_jac : jac_hyp thr draw rd hQ 4 DQ.
+Proof.
+  intros c e Hc He Ht hh gc Hv Hg Wg Dg. rewrite hQ_order in Hc.
+  destruct Hc as [<-|[<-|[<-|[]]]].
+  - destruct He as [<-|[<-|[]]]; cbn [fst snd] in *.
+    + (* the edge to the untracked broadcast of c is never evaluated *)
+      cbv in Ht. discriminate Ht.
+    + assert (Ha : valOf hh 2 = Some cv) by (rewrite Hv; reflexivity).
+      assert (Hb : valOf hh 3 = Some xv) by (rewrite Hv; reflexivity).
+      destruct (rdivb_eval thr draw rd hh 4%nat 2%nat 3%nat cv xv gc Ha Hb Hg (wf_vec2 _ _) (wf_vec2 _ _) Wg Dg eq_refl)
+        as (g & Eg & Dgg & Wgg & Gg).
+      exists g. split; [exact Eg|]. split; [exact Dgg|]. split; [exact Wgg|].
+      intros i Hi. rewrite (Gg i Hi). change (dimsOf hQ 4) with [2%nat]. rewrite DQ_vjp by exact Hi.
+      reflexivity.
+  - destruct He as [<-|[]]. cbn [fst snd]. exists gc.
+    split; [apply (bcast_same_eval hh 3%nat 0%nat gc xv Hg); rewrite Hv; reflexivity|].
+    split; [exact Dg|]. split; [exact Wg|].
+    intros i Hi. change (dimsOf hQ 3) with [2%nat]. rewrite DQ_vjp by exact Hi. unfold dQ. cbn [Nat.eqb]. ring.
+  - destruct He.
+Qed.
+
+Definition valQ (dl : assignment) (t : R) (n : nat) : assignment :=
+  fun i => match n with
+           | 0%nat | 3%nat => elt xv i + t * dl i
+           | 1%nat | 2%nat => elt cv i
+           | _ => elt cv i / (elt xv i + t * dl i)
+           end.
+
+Lemma valid2 idx : validIdx [2%nat] idx -> idx = [0%nat] \/ idx = [1%nat].
+Proof.
+  intros H. apply validIdx_cons in H as (i & r & -> & Hi & Hr). apply validIdx_nil in Hr. subst r.
+  destruct i as [|[|i]]; [left; reflexivity|right; reflexivity|lia].
+Qed.
+
+Lemma hQ_nodes (dl : assignment) n :
+  In n (topoOrder hQ 4) -> (0 < n)%nat -> node_ok hQ DQ (valQ dl) n.
+Proof.
+  intros Hn Hgt. rewrite hQ_order in Hn. destruct Hn as [<-|[<-|[<-|[]]]]; [| |lia].
+  - (* the Div node: the quotient rule; the numerator is frozen *)
+    apply (ok_div hQ DQ (valQ dl) 4 (2%nat, RDivA 4 3) (3%nat, RDivB 4 2 3)); try reflexivity.
+    + intros i j. unfold DQ, dQ, valQ. cbn [Nat.eqb fst]. destruct (idx_eqb i j); [|reflexivity].
+      f_equal. ring.
+    + intros i j. unfold DQ, dQ, valQ. cbn [Nat.eqb fst]. destruct (idx_eqb i j); [|reflexivity].
+      replace (elt xv j + 0 * dl j) with (elt xv j) by ring. reflexivity.
+    + intros j Hj. destruct (valid2 j Hj) as [-> | ->]; unfold valQ; cbn [fst].
+      * change (elt xv [0%nat]) with x0. intros H. apply Hx0. lra.
+      * change (elt xv [1%nat]) with x1. intros H. apply Hx1. lra.
+    + intros _ t i _. reflexivity.
+    + intros Hf. cbv in Hf. discriminate Hf.
+  - apply (ok_linear_multi hQ DQ (valQ dl) _ (fun _ => 0)); intros t j Hj;
+      cbv [edgesOf hQ nth_error nedges lsum map fold_right trackedOf ntracked fst].
+    change (dimsOf hQ 0) with [2%nat]. rewrite !DQ_jvp by exact Hj. unfold dQ. cbn [Nat.eqb valQ]. ring.
+Qed.
+
+Lemma quot_total_derivative (h' : @heap R) lg gx (dl : assignment) :
+  bp_topo rd ids hQ 4 = (h', lg, Ok tt) -> gradOf h' 0 = Some gx ->
+  is_derive (fun t => c0 / (x0 + t * dl [0%nat]) + c1 / (x1 + t * dl [1%nat])) 0
+            (elt gx [0%nat] * dl [0%nat] + elt gx [1%nat] * dl [1%nat]).
+Proof.
+  intros E Egx.
+  assert (H : is_derive (fun t => sumIdx (dimsOf hQ 4) (fun k => valQ dl t 4 k)) 0
+                        (sumIdx (dimsOf hQ 0) (fun i => elt gx i * dl i))).
+  { apply (bp_total_derivative thr draw rd hQ 4%nat h' lg DQ 0%nat dl gx (valQ dl)
+             hQ_rules_own hQ_wf_heap eq_refl E).
+    - intros n Hn. rewrite hQ_order in Hn. destruct Hn as [<-|[<-|[<-|[]]]]; reflexivity.
+    - intros rv0 Hrv. cbn in Hrv. inversion Hrv. apply wf_vec2.
+    - exact hQ_jac.
+    - rewrite hQ_order. do 2 right. left. reflexivity.
+    - exact Egx.
+    - intros n _ Hlt. lia.
+    - intros t i. unfold valQ. ring.
+    - apply chain_hyp_of_nodes. apply hQ_nodes. }
+  change (dimsOf hQ 4) with [2%nat] in H. change (dimsOf hQ 0) with [2%nat] in H.
+  rewrite sumIdx2 in H.
+  apply (is_derive_ext (fun t => sumIdx [2%nat] (fun k => valQ dl t 4 k))); [|exact H].
+  intros t. rewrite sumIdx2. reflexivity.
+Qed.
+
+(* the gradient of  Σ_k c_k / x_k  left on x is  - c / x² *)
+Theorem quot_gradient :
+  exists h' lg gx, bp_topo rd ids hQ 4 = (h', lg, Ok tt) /\ gradOf h' 0 = Some gx /\
+    elt gx [0%nat] = - c0 / x0 ^ 2 /\ elt gx [1%nat] = - c1 / x1 ^ 2 /\
+    forall dl : assignment,
+      is_derive (fun t => c0 / (x0 + t * dl [0%nat]) + c1 / (x1 + t * dl [1%nat])) 0
+                (elt gx [0%nat] * dl [0%nat] + elt gx [1%nat] * dl [1%nat]).
+Proof.
+  destruct hQ_run as (h' & lg & E).
+  destruct (bp_topo_correct rd hQ 4 h' lg hQ_rules_own hQ_wf_heap eq_refl E)
+    as (rv & ones & _ & _ & _ & _ & _ & _ & C7 & _).
+  assert (Hex : exists gx, gradOf h' 0 = Some gx).
+  { destruct (gradOf h' 0) as [gx|] eqn:Egx; [exists gx; reflexivity|].
+    exfalso. apply (C7 0%nat); [rewrite hQ_order; do 2 right; left; reflexivity|exact Egx]. }
+  destruct Hex as (gx & Egx).
+  exists h', lg, gx. split; [exact E|]. split; [exact Egx|].
+  pose proof (quot_total_derivative h' lg gx (indic [0%nat]) E Egx) as H0.
+  pose proof (quot_total_derivative h' lg gx (indic [1%nat]) E Egx) as H1.
+  unfold indic in H0, H1.
+  change (idx_eqb [0%nat] [0%nat]) with true in *. change (idx_eqb [1%nat] [0%nat]) with false in *.
+  change (idx_eqb [0%nat] [1%nat]) with false in *. change (idx_eqb [1%nat] [1%nat]) with true in *.
+  split; [|split].
+  - apply is_derive_unique in H0.
+    replace (elt gx [0%nat]) with (elt gx [0%nat] * 1 + elt gx [1%nat] * 0) by ring.
+    rewrite <- H0. apply is_derive_unique. auto_derive.
+    + repeat split; lra.
+    + field. lra.
+  - apply is_derive_unique in H1.
+    replace (elt gx [1%nat]) with (elt gx [0%nat] * 0 + elt gx [1%nat] * 1) by ring.
+    rewrite <- H1. apply is_derive_unique. auto_derive.
+    + repeat split; lra.
+    + field. lra.
+  - intros dl. apply (quot_total_derivative h' lg gx dl E Egx).
+Qed.
+
+End Quot.
+
+(* ---------------------------------------------------------------------------------- *)
+(* 6d. y = x.MatMul(x.Transpose())  for a row vector x : [1,2]  (y = [[x0² + x1²]]): the MatMul node
+       has two tracked operands that both depend on x, one of them through a Transpose (a linear
+       gather node); derivative 2 x *)
+Section MM.
+
+Definition xr : tensor R := mkT [1%nat; 2%nat] (Vec [Vec [Sc x0; Sc x1]]).
+Definition xc : tensor R := mkT [2%nat; 1%nat] (Vec [Vec [Sc x0]; Vec [Sc x1]]).
+Definition pv : tensor R := mkT [1%nat; 1%nat] (Vec [Vec [Sc (0 + x0 * x0 + x1 * x1)]]).
+
+Definition hT : @heap R :=
+  [mkNode xr true false None [] None;
+   mkNode xc true false None [(0%nat, RTranspose 1)] None;
+   mkNode xr true false None [(0%nat, RBroadcast 2 0)] None;
+   mkNode xc true false None [(1%nat, RBroadcast 3 1)] None;
+   mkNode pv true false None [(2%nat, RMatMulA 4 3); (3%nat, RMatMulB 4 2)] None].
+
+Example hT_built :
+  let '(h0, x) := leaf [] xr true None in
+  match h_transpose h0 x None with
+  | (h1, Ok c) => h_matmul h1 x c None = (hT, Ok 4%nat)
+  | _ => False
+  end.
+Proof. vm_compute. reflexivity. Qed.
+
+Example hT_order : topoOrder hT 4 = [4; 3; 1; 2; 0]%nat.
+Proof. reflexivity. Qed.
+
+Example hT_run : exists h' lg, bp_topo rd ids hT 4 = (h', lg, Ok tt).
+Proof. eexists. eexists. vm_compute. reflexivity. Qed.
+
+Lemma wf_xr : wf xr.  Proof. split; cbn; repeat constructor. Qed.
+Lemma wf_xc : wf xc.  Proof. split; cbn; repeat constructor. Qed.
+Lemma wf_pv : wf pv.  Proof. split; cbn; repeat constructor. Qed.
+
+Lemma hT_rules_own : rules_own hT.
+Proof.
+  intros c n e Hn He. destruct c as [|[|[|[|[|c]]]]]; cbn in Hn.
+  - inversion Hn; subst n. destruct He.
+  - inversion Hn; subst n. destruct He as [<-|[]]. reflexivity.
+  - inversion Hn; subst n. destruct He as [<-|[]]. reflexivity.
+  - inversion Hn; subst n. destruct He as [<-|[]]. reflexivity.
+  - inversion Hn; subst n. destruct He as [<-|[<-|[]]]; reflexivity.
+  - destruct c; discriminate.
+Qed.
+
+Lemma hT_wf_heap : wf_heap hT.
+Proof.
+  intros c n e Hn He. destruct c as [|[|[|[|[|c]]]]]; cbn in Hn.
+  - inversion Hn; subst n. destruct He.
+  - inversion Hn; subst n. destruct He as [<-|[]]. cbn. lia.
+  - inversion Hn; subst n. destruct He as [<-|[]]. cbn. lia.
+  - inversion Hn; subst n. destruct He as [<-|[]]. cbn. lia.
+  - inversion Hn; subst n. destruct He as [<-|[<-|[]]]; cbn; lia.
+  - destruct c; discriminate.
+Qed.
+
+Definition sw (i : list nat) : list nat := [nth 1 i 0%nat; nth 0 i 0%nat].
+
+(* MatMul blocks in the closed form of [chain_node_matmul2]; Transpose: a permutation matrix;
+   same-shape Broadcast: the identity *)
+Definition DT (c : nat) (e : nat * @rule R) (i j : list nat) : R :=
+  match c with
+  | 4%nat => if (fst e =? 2)%nat
+             then (if (nth 0 i 0 =? nth 0 j 0)%nat then elt xc [nth 1 i 0%nat; nth 1 j 0%nat] else 0)
+             else (if (nth 1 i 0 =? nth 1 j 0)%nat then elt xr [nth 0 j 0%nat; nth 0 i 0%nat] else 0)
+  | 1%nat => if idx_eqb j (sw i) then 1 else 0
+  | _ => if idx_eqb i j then 1 else 0
+  end.
+
+Lemma sumIdx11 (f : assignment) : sumIdx [1%nat; 1%nat] f = f [0%nat; 0%nat].
+Proof. unfold sumIdx. cbn. ring. Qed.
+Lemma sumIdx12 (f : assignment) : sumIdx [1%nat; 2%nat] f = f [0%nat; 0%nat] + f [0%nat; 1%nat].
+Proof. unfold sumIdx. cbn. ring. Qed.
+Lemma sumIdx21 (f : assignment) : sumIdx [2%nat; 1%nat] f = f [0%nat; 0%nat] + f [1%nat; 0%nat].
+Proof. unfold sumIdx. cbn. ring. Qed.
+
+Lemma hT_jac : jac_hyp thr draw rd hT 4 DT.
+Proof.
+  intros c e Hc He Ht hh gc Hv Hg Wg Dg. rewrite hT_order in Hc.
+  destruct Hc as [<-|[<-|[<-|[<-|[<-|[]]]]]].
+  - destruct He as [<-|[<-|[]]]; cbn [fst snd].
+    + (* RMatMulA: gy · (x^T)^T *)
+      assert (Hb : valOf hh 3 = Some xc) by (rewrite Hv; reflexivity).
+      destruct (VjpLinalgP.rmatmula_eval thr draw rd hh 4%nat 3%nat xc gc [] 1%nat 2%nat 1%nat Hb Hg wf_xc Wg eq_refl Dg)
+        as (g & Eg & Dgg & Wgg & Gg).
+      exists g. split; [exact Eg|]. split; [exact Dgg|]. split; [exact Wgg|].
+      intros i Hi. change (dimsOf hT 2) with [1%nat; 2%nat] in Hi.
+      apply valid2d_inv in Hi as (r & k & -> & Hr & Hk).
+      pose proof (Gg [] r k (Forall2_nil _) Hr Hk) as G1. cbn [app] in G1. rewrite G1.
+      change (dimsOf hT 4) with [1%nat; 1%nat]. rewrite sumIdx11.
+      unfold VjpLinalgP.sumN, DT. cbn [seq map fold_right fst Nat.eqb nth].
+      assert (r = 0%nat) by lia. subst r. cbn [Nat.eqb]. ring.
+    + (* RMatMulB: x^T · gy *)
+      assert (Ha : valOf hh 2 = Some xr) by (rewrite Hv; reflexivity).
+      destruct (VjpLinalgP.rmatmulb_eval thr draw rd hh 4%nat 2%nat xr gc [] 1%nat 2%nat 1%nat Ha Hg wf_xr Wg eq_refl Dg)
+        as (g & Eg & Dgg & Wgg & Gg).
+      exists g. split; [exact Eg|]. split; [exact Dgg|]. split; [exact Wgg|].
+      intros i Hi. change (dimsOf hT 3) with [2%nat; 1%nat] in Hi.
+      apply valid2d_inv in Hi as (k & c & -> & Hk & Hc).
+      pose proof (Gg [] k c (Forall2_nil _) Hk Hc) as G1. cbn [app] in G1. rewrite G1.
+      change (dimsOf hT 4) with [1%nat; 1%nat]. rewrite sumIdx11.
+      unfold VjpLinalgP.sumN, DT. cbn [seq map fold_right fst Nat.eqb nth].
+      assert (c = 0%nat) by lia. subst c. cbn [Nat.eqb]. ring.
+  - destruct He as [<-|[]]. cbn [fst snd]. exists gc.
+    split; [apply (bcast_same_eval hh 3%nat 1%nat gc xc Hg); rewrite Hv; reflexivity|].
+    split; [exact Dg|]. split; [exact Wg|].
+    intros i Hi. unfold DT. rewrite (sumIdx_diag_r (dimsOf hT 3) (elt gc) (fun _ => 1) i Hi). ring.
+  - (* RTranspose *)
+    destruct He as [<-|[]]. cbn [fst snd].
+    destruct (VjpLinalgP.rtranspose_eval thr draw rd hh 1%nat gc [] 1%nat 2%nat Hg Wg Dg)
+      as (g & Eg & Dgg & Wgg & Gg).
+    exists g. split; [exact Eg|]. split; [exact Dgg|]. split; [exact Wgg|].
+    intros i Hi. change (dimsOf hT 0) with [1%nat; 2%nat] in Hi.
+    apply valid2d_inv in Hi as (r & k & -> & Hr & Hk).
+    pose proof (Gg [] r k (Forall2_nil _) Hr Hk) as G1. cbn [app] in G1. rewrite G1.
+    unfold DT, sw. cbn [nth].
+    rewrite (sumIdx_ext (dimsOf hT 1) _ (fun j => if idx_eqb j [k; r] then elt gc j else 0)).
+    2:{ intros j _. destruct (idx_eqb j [k; r]); ring. }
+    symmetry. apply (sumIdx_single (dimsOf hT 1) [k; r] (elt gc)). apply valid2d_intro; assumption.
+  - destruct He as [<-|[]]. cbn [fst snd]. exists gc.
+    split; [apply (bcast_same_eval hh 2%nat 0%nat gc xr Hg); rewrite Hv; reflexivity|].
+    split; [exact Dg|]. split; [exact Wg|].
+    intros i Hi. unfold DT. rewrite (sumIdx_diag_r (dimsOf hT 2) (elt gc) (fun _ => 1) i Hi). ring.
+  - destruct He.
+Qed.
+
+Definition valT (dl : assignment) (t : R) (n : nat) : assignment :=
+  fun i => match n with
+           | 0%nat | 2%nat => elt xr i + t * dl i
+           | 1%nat | 3%nat => elt xc i + t * dl (sw i)
+           | _ => sumN 2 (fun k => (elt xr [nth 0 i 0%nat; k] + t * dl [nth 0 i 0%nat; k]) *
+                                   (elt xc [k; nth 1 i 0%nat] + t * dl [nth 1 i 0%nat; k]))
+           end.
+
+Lemma hT_nodes (dl : assignment) n :
+  In n (topoOrder hT 4) -> (0 < n)%nat -> node_ok hT DT (valT dl) n.
+Proof.
+  intros Hn Hgt. rewrite hT_order in Hn. destruct Hn as [<-|[<-|[<-|[<-|[<-|[]]]]]]; [| | | |lia].
+  - (* the MatMul node *)
+    apply (ok_matmul2 hT DT (valT dl) 4 (2%nat, RMatMulA 4 3) (3%nat, RMatMulB 4 2) 1 2 1); try reflexivity.
+    + intros r k r' c. unfold DT, valT. cbn [fst Nat.eqb nth]. destruct (r =? r')%nat; [ring|reflexivity].
+    + intros k c r c'. unfold DT, valT. cbn [fst Nat.eqb nth]. destruct (c =? c')%nat; [ring|reflexivity].
+    + intros Hf. cbv in Hf. discriminate Hf.
+    + intros Hf. cbv in Hf. discriminate Hf.
+  - (* Broadcast (same shape) of x^T *)
+    apply (ok_linear_multi hT DT (valT dl) _ (fun _ => 0)); intros t j Hj;
+      cbv [edgesOf hT nth_error nedges lsum map fold_right trackedOf ntracked fst].
+    fold hT. unfold DT. rewrite (sumIdx_diag_l (dimsOf hT 1) (fun _ => 1) (valT dl t 1) j Hj). cbn [valT]. ring.
+  - (* Transpose: a single-edge gather node *)
+    apply (ok_linear hT DT (valT dl) 1 (0%nat, RTranspose 1) (fun _ => 0)); try reflexivity.
+    intros t j Hj. change (dimsOf hT 1) with [2%nat; 1%nat] in Hj.
+    apply valid2d_inv in Hj as (k & c & -> & Hk & Hc). assert (c = 0%nat) by lia. subst c.
+    cbn [fst]. change (dimsOf hT 0) with [1%nat; 2%nat]. rewrite sumIdx12.
+    unfold DT, sw. cbn [nth]. rewrite !idx_eqb2.
+    destruct k as [|[|k]]; [| |lia]; cbn [Nat.eqb andb]; unfold valT, sw, elt; cbn; ring.
+  - (* Broadcast (same shape) of x *)
+    apply (ok_linear_multi hT DT (valT dl) _ (fun _ => 0)); intros t j Hj;
+      cbv [edgesOf hT nth_error nedges lsum map fold_right trackedOf ntracked fst].
+    fold hT. unfold DT. rewrite (sumIdx_diag_l (dimsOf hT 0) (fun _ => 1) (valT dl t 0) j Hj). cbn [valT]. ring.
+Qed.
+
+Lemma gram_total_derivative (h' : @heap R) lg gx (dl : assignment) :
+  bp_topo rd ids hT 4 = (h', lg, Ok tt) -> gradOf h' 0 = Some gx ->
+  is_derive (fun t => (x0 + t * dl [0%nat; 0%nat]) * (x0 + t * dl [0%nat; 0%nat]) +
+                      (x1 + t * dl [0%nat; 1%nat]) * (x1 + t * dl [0%nat; 1%nat])) 0
+            (elt gx [0%nat; 0%nat] * dl [0%nat; 0%nat] + elt gx [0%nat; 1%nat] * dl [0%nat; 1%nat]).
+Proof.
+  intros E Egx.
+  assert (H : is_derive (fun t => sumIdx (dimsOf hT 4) (fun k => valT dl t 4 k)) 0
+                        (sumIdx (dimsOf hT 0) (fun i => elt gx i * dl i))).
+  { apply (bp_total_derivative thr draw rd hT 4%nat h' lg DT 0%nat dl gx (valT dl)
+             hT_rules_own hT_wf_heap eq_refl E).
+    - intros n Hn. rewrite hT_order in Hn. destruct Hn as [<-|[<-|[<-|[<-|[<-|[]]]]]]; reflexivity.
+    - intros rv0 Hrv. cbn in Hrv. inversion Hrv. apply wf_pv.
+    - exact hT_jac.
+    - rewrite hT_order. do 4 right. left. reflexivity.
+    - exact Egx.
+    - intros n _ Hlt. lia.
+    - intros t i. unfold valT. ring.
+    - apply chain_hyp_of_nodes. apply hT_nodes. }
+  change (dimsOf hT 4) with [1%nat; 1%nat] in H. change (dimsOf hT 0) with [1%nat; 2%nat] in H.
+  rewrite sumIdx12 in H.
+  apply (is_derive_ext (fun t => sumIdx [1%nat; 1%nat] (fun k => valT dl t 4 k))); [|exact H].
+  intros t. rewrite sumIdx11. unfold valT, sumN, lsum, elt. cbn. ring.
+Qed.
+
+(* the gradient of  x·xᵀ = x0² + x1²  left on x is 2 x *)
+Theorem gram_gradient :
+  exists h' lg gx, bp_topo rd ids hT 4 = (h', lg, Ok tt) /\ gradOf h' 0 = Some gx /\
+    elt gx [0%nat; 0%nat] = 2 * x0 /\ elt gx [0%nat; 1%nat] = 2 * x1 /\
+    forall dl : assignment,
+      is_derive (fun t => (x0 + t * dl [0%nat; 0%nat]) * (x0 + t * dl [0%nat; 0%nat]) +
+                          (x1 + t * dl [0%nat; 1%nat]) * (x1 + t * dl [0%nat; 1%nat])) 0
+                (elt gx [0%nat; 0%nat] * dl [0%nat; 0%nat] + elt gx [0%nat; 1%nat] * dl [0%nat; 1%nat]).
+Proof.
+  destruct hT_run as (h' & lg & E).
+  destruct (bp_topo_correct rd hT 4 h' lg hT_rules_own hT_wf_heap eq_refl E)
+    as (rv & ones & _ & _ & _ & _ & _ & _ & C7 & _).
+  assert (Hex : exists gx, gradOf h' 0 = Some gx).
+  { destruct (gradOf h' 0) as [gx|] eqn:Egx; [exists gx; reflexivity|].
+    exfalso. apply (C7 0%nat); [rewrite hT_order; do 4 right; left; reflexivity|exact Egx]. }
+  destruct Hex as (gx & Egx).
+  exists h', lg, gx. split; [exact E|]. split; [exact Egx|].
+  pose proof (gram_total_derivative h' lg gx (indic [0%nat; 0%nat]) E Egx) as H0.
+  pose proof (gram_total_derivative h' lg gx (indic [0%nat; 1%nat]) E Egx) as H1.
+  unfold indic in H0, H1.
+  change (idx_eqb [0%nat; 0%nat] [0%nat; 0%nat]) with true in *.
+  change (idx_eqb [0%nat; 1%nat] [0%nat; 0%nat]) with false in *.
+  change (idx_eqb [0%nat; 0%nat] [0%nat; 1%nat]) with false in *.
+  change (idx_eqb [0%nat; 1%nat] [0%nat; 1%nat]) with true in *.
+  split; [|split].
+  - apply is_derive_unique in H0.
+    replace (elt gx [0%nat; 0%nat]) with (elt gx [0%nat; 0%nat] * 1 + elt gx [0%nat; 1%nat] * 0) by ring.
+    rewrite <- H0. apply is_derive_unique. auto_derive; [exact I|ring].
+  - apply is_derive_unique in H1.
+    replace (elt gx [0%nat; 1%nat]) with (elt gx [0%nat; 0%nat] * 0 + elt gx [0%nat; 1%nat] * 1) by ring.
+    rewrite <- H1. apply is_derive_unique. auto_derive; [exact I|ring].
+  - intros dl. apply (gram_total_derivative h' lg gx dl E Egx).
+Qed.
+
+End MM.
+
 End Ex.
 End TotalDeriv2Example.
+
+Print Assumptions curve_diff2_of_filterdiff.
+Print Assumptions curve_diff2_of_partials.
+Print Assumptions chain_node_linear_multi.
+Print Assumptions chain_node_pointwise2.
+Print Assumptions chain_node_mul.
+Print Assumptions chain_node_div.
+Print Assumptions chain_node_bilinear.
+Print Assumptions chain_node_matmul2.
+Print Assumptions chain_hyp_of_nodes.
+Print Assumptions TotalDeriv2Example.diamond_gradient.
+Print Assumptions TotalDeriv2Example.square_gradient.
+Print Assumptions TotalDeriv2Example.quot_gradient.
+Print Assumptions TotalDeriv2Example.gram_gradient.
